@@ -12,6 +12,7 @@ N="${SELFTEST_RUNS:-150}"
 TMP="$(mktemp -d /var/tmp/vsim-selftest-XXXXXX)"
 trap 'rm -rf "$TMP"' EXIT
 export GORACE="halt_on_error=1 exitcode=66 atexit_sleep_ms=0"
+if "$BIN/vsim" corpus -repo /repo -out "$BIN/corpus.json" >/dev/null 2>&1; then export VERIF_CORPUS="$BIN/corpus.json"; fi
 fail=0
 for P in C12 C13 C19 C20; do
   pids=()
